@@ -12,7 +12,7 @@ Proof. vm_compute. reflexivity. Qed.
 Print Assumptions shipped_tables_wf.
 
 Theorem shipped_roundtrip : forall o,
-  representable prows o = true ->
+  representable prows crows o = true ->
   exists o', parse prows crows (print prows o) = Some o' /\ agree_on prows o o'.
 Proof. exact (fun o => Proofs.roundtrip prows crows o shipped_tables_wf). Qed.
 Print Assumptions shipped_roundtrip.
